@@ -137,6 +137,24 @@ fn states(tier: &str) -> Vec<State> {
             }
         }
     }
+    // two base types with ONE local name in the two namespaces, each extended in the start file
+    for order in 0..2 {
+        let mut s = s0();
+        let base_a = Comp::Complex(ComplexType { name: "Base".into(), seq: Some(Seq::of(vec![el("InA", TypeRef::b("string"))])), attrs: vec![Attr { name: "ka".into(), ty: TypeRef::b("int"), required: false }], ..Default::default() });
+        let base_b = Comp::Complex(ComplexType { name: "Base".into(), seq: Some(Seq::of(vec![el("InB", TypeRef::b("long")), el("InB2", TypeRef::b("string"))])), attrs: vec![], ..Default::default() });
+        let d_a = Comp::Complex(ComplexType { name: "T1".into(), base: Some(QName::new(NS_A, "Base")), seq: Some(Seq::of(vec![el("OwnA", TypeRef::b("string"))])), ..Default::default() });
+        let d_b = Comp::Complex(ComplexType { name: "T2".into(), base: Some(QName::new(NS_B, "Base")), seq: Some(Seq::of(vec![el("OwnB", TypeRef::b("string"))])), ..Default::default() });
+        s.files[1].comps.push(base_b);
+        s.files[0].comps.push(base_a);
+        if order == 0 {
+            s.files[0].comps.push(d_a);
+            s.files[0].comps.push(d_b);
+        } else {
+            s.files[0].comps.push(d_b);
+            s.files[0].comps.push(d_a);
+        }
+        out.push(State { label: format!("chain same-local-name bases in both namespaces, order {order}"), depth: 1, set: s });
+    }
     // longer chains
     let max_d = if tier == "quick" { 2 } else { 4 };
     let contents3 = ["sequence", "attributes", "sequence+attributes"];
